@@ -21,6 +21,27 @@ claim("C03", "model_checking",
       "TLA+ spec + TLC exhaustive model checking; gated state-graph replay into the real server under a virtual clock",
       "DESIGN.md 4/C03", "tcpreplay")
 
+claim("C08", "model_checking",
+      "TLC checks ViewsAgree/LiveTracksCache/AttributionOK (and the saver invariants) on specs/Cred/CredStore.tla for every interleaving of two "
+      "concurrent API clients, reloads, administrator edits and the saver; in the thorough tier each original defect switched back on must "
+      "violate an invariant (non-vacuity). The sequential state graph is replayed through the real management API handlers, cred.Manager, the "
+      "TCP/UDP CredStores and real TCP/UDP handshakes per key (virtual clock for the debounced save), all views compared after every step; "
+      "concurrent API traffic with real scheduling, perturbed at the verifhook points, must end with the three views agreeing, also under the "
+      "race detector.",
+      "Universe of 2 users x 2 keys; the structure constants of the spec (what happens under ManagedServer.mu) are bound by replay outcomes, "
+      "perturbed stress and the race detector, not derived from the code; AEAD trusted.",
+      "TLA+ spec + TLC exhaustive model checking; state-graph replay through the real API/servers; randomized concurrent runs with quiescent agreement oracle",
+      "DESIGN.md 4/C08", "credstore")
+claim("C20", "fault_enumeration",
+      "The file operations of one real save are read from an strace and become the model's SaveOps; TLC checks OldOrNew/AlwaysLoadable/"
+      "AckedThenSaved with a crash or write error between and inside any of them and shutdown at every saver phase. On the real code a child "
+      "process performs the save with RLIMIT_FSIZE=k for every k over the document length, SIGKILL at the verifhook points and (strace fault "
+      "injection) at the save's own fsync/fchmod/rename system calls, each followed by a real restart that must accept the previous or the new "
+      "user set; shutdown is replayed with the saver gated at every phase of the debounce.",
+      "Crash = process death (page cache survives, no power-loss model); stores of 0..3 users; one strace run defines the operation sequence.",
+      "TLA+ spec of the save/crash/shutdown state machine checked by TLC with strace-derived operations; fault enumeration in a child process; gated shutdown replay",
+      "DESIGN.md 4/C20", "credstore")
+
 NA = {}
 
 def main():
